@@ -3,7 +3,7 @@
    Proved: the lexer mechanism (code-level model of rsql/lexer.go) and the round trip of the reference
    grammar.  NOT proved: totality of the hand-written Go parser over all byte strings -- that part is
    tested (fuzzing under recover and a 2 s limit), see bin/props.d/C11.json. *)
-From SV Require Import Model.Lexer Model.Stmt Spec.LexSpec Proofs.LexerProofs Proofs.LexerLayout Proofs.StmtProofs.
+From SV Require Import Model.Lexer Model.Stmt Spec.LexSpec Proofs.LexerProofs Proofs.LexerLayout Proofs.StmtProofs Proofs.StmtLiteral.
 From Coq Require Import String.
 Local Open Scope N_scope.
 
@@ -84,6 +84,22 @@ Proof.
 Qed.
 Print Assumptions C11_parse_layout.
 
+(* "a literal is data": rewriting the VALUES of the string-literal and back-quoted-identifier tokens of any
+   token stream by any function f (relit f leaves every other token alone) commutes with the reference
+   parser: the statement is accepted or rejected alike, and the skeleton is the same up to those values
+   (relit_stmt f rewrites the literal tokens of select items, WHERE, HAVING, window parameters and the
+   WITH values; columns, aliases, joins, keys, LIMIT are untouched).  Whatever a literal contains -- other
+   quote characters, word( call shapes, parentheses, clause words -- it never moves the structure. *)
+Theorem C11_literal_is_data : forall f toks,
+  parse_ref (map (relit f) toks) = option_map (relit_stmt f) (parse_ref toks).
+Proof. exact parse_ref_relit. Qed.
+Print Assumptions C11_literal_is_data.
+
+Theorem C11_literal_acceptance : forall f toks,
+  (exists st, parse_ref (map (relit f) toks) = Some st) <-> (exists st, parse_ref toks = Some st).
+Proof. exact parse_ref_accepts_relit. Qed.
+Print Assumptions C11_literal_acceptance.
+
 (* ---- non-vacuity ---- *)
 (* SELECT DISTINCT a, avg(t) AS x FROM s LEFT JOIN m AS mm ON i = j WHERE a > 1 AND n LIKE 'LIMIT 5'
    GROUP BY a, TumblingWindow('5s') HAVING x > 2 WITH (TIMESTAMP='ts') ORDER BY x DESC LIMIT 3 *)
@@ -126,3 +142,21 @@ Example C11_example_opaque :
   map ttype (tokens (bs "'LIMIT 5' `order` ""WHERE"" limit 5"%string)) = [T_String; T_QIdent; T_String; T_LIMIT; T_Number]
   /\ map ttype (tokens (bs "a"%string ++ [0] ++ bs "b"%string)) = [T_Ident].
 Proof. vm_compute. split; reflexivity. Qed.
+
+(* a double-quoted literal holding an apostrophe, a call shape and parentheses is ONE token (hypothesis of
+   C11_lexer_literal_opaque satisfied); the statement and its twin with a neutral literal are related by
+   relit, and both are accepted with the same skeleton up to the literal *)
+Example C11_example_literal_is_data :
+  let lit := bs """it's urgent (call back)"""%string in
+  let t1 := tokens (bs "SELECT a FROM t WHERE note = ""it's urgent (call back)"" LIMIT 3"%string) in
+  let t2 := tokens (bs "SELECT a FROM t WHERE note = ""L0"" LIMIT 3"%string) in
+  let f := fun _ : bytes => bs """L0"""%string in
+  forallb (in_quote 34) (bs "it's urgent (call back)"%string) = true
+  /\ In (mkTok T_String lit) t1
+  /\ map (relit f) t1 = t2
+  /\ (exists st, parse_ref t1 = Some st /\ parse_ref t2 = Some (relit_stmt f st) /\ s_limit st = Some (bs "3"%string)).
+Proof.
+  vm_compute. repeat split; try reflexivity.
+  - right. right. right. right. right. right. right. left. reflexivity.
+  - eexists. repeat split; reflexivity.
+Qed.
